@@ -237,6 +237,8 @@ static WD_CASE_TAG: Mutex<String> = Mutex::new(String::new());
 static WD_CASE_BYTES: Mutex<Vec<u8>> = Mutex::new(Vec::new());
 
 pub const EXIT_CPU_WATCHDOG: i32 = 97;
+/// (property, replay file) while `replay` runs: a hang of the replayed case is then reported as the violation it is
+pub static REPLAY_INFO: Mutex<Option<(String, String)>> = Mutex::new(None);
 
 static CUR_IDX: AtomicU64 = AtomicU64::new(0);
 static CUR_FAM_HASH: AtomicU64 = AtomicU64::new(0);
@@ -333,6 +335,13 @@ pub fn spawn_cpu_watchdog(limit_s: f64, dump_path: String) {
                         "kind": "cpu_watchdog", "case": tag, "bytes": hex, "family": fam, "idx": idx,
                         "cpu_s": (now - cpu_at_first_seen) as f64 / 1e9, "limit_s": limit_s
                     });
+                    if let Ok(r) = REPLAY_INFO.lock() {
+                        if let Some((prop, path)) = &*r {
+                            println!("replay of {}: the replayed case does not terminate (more than {} s of CPU in one library call)", path, limit_s);
+                            println!("VIOLATION property={} replay={}", prop, path);
+                            std::process::exit(1);
+                        }
+                    }
                     let _ = std::fs::write(&dump_path, j.to_string());
                     eprintln!("[watchdog] a single guarded library call in case {}:{} exceeded {} s of CPU; aborting shard", fam, idx, limit_s);
                     std::process::exit(EXIT_CPU_WATCHDOG);
